@@ -121,7 +121,8 @@ func ceMain(args []string) {
 		switch {
 		case srcK == 0:
 		case srcK == 1:
-			src = &url.URL{}
+			// URLs that render as the empty string: the zero value, and values that are not the zero struct
+			src = []*url.URL{{}, {OmitHost: true}, {RawPath: "%2f"}, {RawFragment: "%2f"}, {ForceQuery: false, RawQuery: ""}}[p.intn(5)]
 			srcTok = "-"
 		default:
 			src, _ = url.Parse([]string{"https://example.com/src", "urn:verif:1", "/relative?x=<y>&z"}[p.intn(3)])
@@ -133,7 +134,7 @@ func ceMain(args []string) {
 		switch {
 		case schK <= 2:
 		case schK == 3:
-			sch = &url.URL{}
+			sch = []*url.URL{{}, {OmitHost: true}, {RawPath: "%2f"}}[p.intn(3)]
 			schTok = "-"
 		default:
 			sch, _ = url.Parse("https://example.com/schema.json")
